@@ -59,6 +59,8 @@ fixed('F23', ['C02', 'C01'], 'A5u', 'adsg_core.graph.adsg_basic:BasicDSG.set_sta
       'nodes of a derivation cycle that no start node derives survived set_start_nodes (only what floating *root* nodes derive was removed); a selection choice below such a cycle stayed in every instance and GraphProcessor.get_graph raised "Selection-choice nodes left" for every vector (start S, S->A, choice C under A; cycle X->Y->X with choice D under Y: witness/w23)', 'witness/w23', 'also removes derivation cycles')
 fixed('F24', ['C14', 'C01'], 'A5q', 'adsg_core.optimization.hierarchy.fast:FastHierarchyAnalyzer.get_graph._get_graph:A5q:candidate-error:_get_graph:RuntimeError#1',
       'the fast encoder raised for in-range vectors of a feasible design space: an option that necessarily confirms two incompatible nodes (S -> C0[A|B|D], B -> C, B -> C1[E|F], C x B) gives an infeasible graph in which C1 is never activated -> RuntimeError "Selection-choice nodes left" for [1,*]; with a second choice level the infeasible graph still named a removed choice node -> NetworkXError (witness/w24; 31 of 1800 random graphs)', 'witness/w24', 'rejects a candidate vector whose graph becomes infeasible')
+fixed('F25', ['C13', 'C01'], 'A14p', 'adsg_core.graph.choice_constraints:get_constraint_pre_removed_options:A14p:permutation-overflow-only-if-all-permanent',
+      'a PERMUTATION constraint over more conditionally active choices than options removed every option of every constrained choice up front and the whole design space was reported infeasible, although choices that are not active together are unconstrained (C0 activates 1, 2 or 3 of three constrained choices with two options each: 4 architectures are admitted, GraphProcessor raised "no feasible graphs to begin with" with both encoders; witness/w26)', 'witness/w26', 'no longer remove all options up front')
 known('F7', ['C07', 'C03'], 'A6', 'adsg_core.optimization.assign_enc.encoding:EagerEncoder.get_matrix:A6:raw-vector-returned:return (list(vector) + extra_vector, matrix[i_mat, :, :])',
       'on a direct hit the eager encoder returns the input vector instead of the stored -1-marked one, so conditionally inactive variables are reported active (30 vectors in witness/w07)',
       'witness/w07', 'returning the stored vector changes what is_valid_vector(get_matrix(x)[0]) answers and breaks 6 existing tests; not a small repair')
